@@ -8,7 +8,8 @@
                      line |-> string]            \* the command line that was built (prediction only)
      [k |-> "parts", parts |-> <<string, ...>>]  \* CommandManager.parse_partial(line) values (prediction only)
      [k |-> "call",  outcome |-> "called" | exception class name,
-                     recv |-> <<arg, ...>>]      \* what the registered command received
+                     recv |-> <<arg, ...>>]      \* what the registered command received; one record per execution of
+                                                 \* the line (the same line may be executed again on the same manager)
 
    Clauses (only what the statement says):
      C45.not_executed  the command line built from quoted arguments is not executed (any exception)
@@ -45,13 +46,15 @@ Culprit(sent, Pref(_)) ==
 HasBs(s) == BS \in ToSet(s)
 IsOws(s) == QuoteClass(s) = "owsonly"
 
-MonInit == [bad |-> <<>>, wit |-> {}, pt |-> "", sent |-> <<>>, open |-> FALSE]
+MonInit == [bad |-> <<>>, wit |-> {}, pt |-> "", sent |-> <<>>, open |-> FALSE, calls |-> 0]
+\* an argument that itself begins and ends with the same quote character (unquoting twice would strip it)
+SelfQuoted(s) == Len(s) > 1 /\ s[1] \in {DQ, SQ} /\ s[1] = s[Len(s)]
 
 LineStep(m, ev) ==
   LET tags == { Tag(ev.sent[i]) : i \in 1..Len(ev.sent) }
       w == {"pt_" \o ev.pt} \cup { "q_" \o t[1] : t \in tags } \cup { t[2] : t \in tags } \cup { t[3] : t \in tags }
            \cup (IF Len(ev.sent) > 1 THEN {"multi"} ELSE {}) \cup (IF Len(ev.sent) = 0 THEN {"noargs"} ELSE {})
-  IN [m EXCEPT !.pt = ev.pt, !.sent = ev.sent, !.open = TRUE, !.wit = @ \cup w]
+  IN [m EXCEPT !.pt = ev.pt, !.sent = ev.sent, !.open = TRUE, !.calls = 0, !.wit = @ \cup w]
 
 CallStep(m, ev) ==
   LET D == { i \in 1..Len(m.sent) : i <= Len(ev.recv) /\ ev.recv[i] # m.sent[i] }
@@ -60,7 +63,11 @@ CallStep(m, ev) ==
              ELSE IF Len(ev.recv) # Len(m.sent) THEN <<"C45.split", m.pt>> \o Culprit(m.sent, IsOws)
              ELSE IF D # {} THEN <<"C45.arg_changed", m.pt>> \o Tag(m.sent[FirstIdx(D)])
              ELSE <<>>
-  IN [m EXCEPT !.bad = bad, !.open = FALSE, !.wit = @ \cup (IF m.open THEN {"call_checked"} ELSE {})]
+  IN [m EXCEPT !.bad = bad, !.calls = @ + 1,      \* every execution of the line is judged, not only the first
+               !.wit = @ \cup (IF m.open THEN {"call_checked"} ELSE {})
+                         \cup (IF m.open /\ m.calls >= 1 THEN {"call_repeated"} ELSE {})
+                         \cup (IF m.open /\ m.calls >= 1 /\ \E i \in 1..Len(m.sent) : SelfQuoted(m.sent[i])
+                               THEN {"repeat_self_quoted"} ELSE {})]
 
 MonStep(m, ev) == IF ev.k = "line" THEN LineStep(m, ev)
                   ELSE IF ev.k = "call" THEN CallStep(m, ev)
